@@ -56,6 +56,27 @@ type Case struct {
 	Latency  string `json:"latency,omitempty"` // MapStream: "", "desc", "head"
 	Par      int    `json:"par,omitempty"`
 	Buf      int    `json:"buf,omitempty"`
+	// EWraps: the error E that the source / callback fails with also wraps a context error
+	// (1 = context.Canceled, 2 = context.DeadlineExceeded) - an upstream call of its own timed out, say.
+	// It is still E and has to surface as E.
+	EWraps int `json:"ewraps,omitempty"`
+}
+
+// CtxWrap is an error of the source's own that also wraps a context error.
+type CtxWrap struct{ Own, Ctx error }
+
+func (e *CtxWrap) Error() string   { return e.Own.Error() + ": " + e.Ctx.Error() }
+func (e *CtxWrap) Unwrap() []error { return []error{e.Own, e.Ctx} }
+
+// MkE builds the case's terminal error.
+func MkE(c Case) error {
+	switch c.EWraps {
+	case 1:
+		return &CtxWrap{sk.NewSentinel("E"), context.Canceled}
+	case 2:
+		return &CtxWrap{sk.NewSentinel("E"), context.DeadlineExceeded}
+	}
+	return sk.NewSentinel("E")
 }
 
 // Response is one consumer-visible step.
@@ -603,7 +624,7 @@ func Ref(c Case) (flat []int, groups [][]int) {
 
 // Build constructs the subject for a caller-goroutine combinator or reducer.
 func Build(c Case) (Subject, *Env, error) {
-	e := &Env{c: c, E: sk.NewSentinel("E"), T1: sk.NewSentinel("T1"), T2: sk.NewSentinel("T2")}
+	e := &Env{c: c, E: MkE(c), T1: sk.NewSentinel("T1"), T2: sk.NewSentinel("T2")}
 	if len(c.Classes) != U {
 		return nil, nil, fmt.Errorf("bad classes")
 	}
@@ -749,10 +770,11 @@ func Consume(c Case, subj Subject, e *Env, pace func()) *Result {
 			res.Final = stream.End
 			break
 		}
-		resumable := !res.Reducer && !IsBackground(c.Comb) &&
+		resumable := errors.Is(r.Err, e.E)
+		resumable = !resumable && (!res.Reducer && !IsBackground(c.Comb) &&
 			(errors.Is(r.Err, e.T1) || errors.Is(r.Err, e.T2)) ||
 			(!res.Reducer && ctx == cancelled && errors.Is(r.Err, context.Canceled)) ||
-			(!res.Reducer && timed && errors.Is(r.Err, context.DeadlineExceeded))
+			(!res.Reducer && timed && errors.Is(r.Err, context.DeadlineExceeded)))
 		if resumable && res.Resumed < 10 {
 			res.Resumed++
 			continue
